@@ -429,6 +429,21 @@ def _styles(spec, ctx, R):
         ctx.check("styles:identical", a["digest"] == b["digest"] and (a["error"] is None) == (b["error"] is None), site=name,
                   detail={"flat": a, "package": b})
         ctx.check("styles:all_calls_ran", a["error"] is None and b["error"] is None, site=name, detail={"flat": a["error"], "package": b["error"]})
+    # fresh interpreters with other hash seeds (set / dict-of-str iteration order, object ids and addresses differ): same digests
+    for hs in ("1", "98765"):
+        env = dict(os.environ)
+        env["PYTHONPATH"] = here + os.pathsep + os.path.join(here, ".deps")
+        env["PYTHONHASHSEED"] = hs
+        try:
+            p = subprocess.run([sys.executable, "-m", "vq.battery", "flat"], cwd=here, env=env, capture_output=True, text=True, timeout=600)
+            other = json.loads(p.stdout)["results"]
+        except Exception as e:
+            ctx.note(f"battery subprocess with PYTHONHASHSEED={hs} failed: {e!r}")
+            continue
+        ctx.hit("process:other_hash_seed")
+        for name in sorted(set(f) & set(other)):
+            ctx.check("process:independent_of_hash_seed", other[name]["digest"] == f[name]["digest"], site=name, tags=["PYTHONHASHSEED=" + hs],
+                      detail={"PYTHONHASHSEED=0": f[name], "other": other[name]})
     ctx.sample({"styles": ["flat", "package"], "modules_loaded_package_style": res["package"]["modules"], "calls_compared": len(f)})
 
 
